@@ -119,6 +119,13 @@ def farzone(args):
     try:
         Mininec.psi = ORIG_PSI
         m = dict(farzone_models())[name]()
+        # the object has a history: an earlier frequency with its own near field (results must
+        # not depend on it)
+        f_target = m.f
+        m.f = 0.7 * f_target
+        m.compute()
+        m.compute_near_field((1.0, 2.0, 30.0), (1, 1, 1), (1, 1, 1))
+        m.f = f_target
         m.compute()
         lam = m.wavelen
         R = 1000 * lam
